@@ -1,6 +1,8 @@
 package main
 
 import (
+	"strconv"
+	"os"
 	"fmt"
 	"go/types"
 	"math/big"
@@ -54,6 +56,7 @@ type PtrV struct {
 	Path []Step
 	Sym  string
 	Typ  types.Type
+	Root types.Type // for Sym pointers into a heap object: the struct type the reference points to
 }
 
 // SeqTree holds the contents of an array as SMT arrays, one per scalar leaf
@@ -132,6 +135,8 @@ type VCtx struct {
 	assumed     map[string]bool
 	strConsts   map[string]Term
 	ufs         map[string]bool
+	heapSorts   map[string]string
+	heapAxioms  map[string]string
 	epochs      int
 	sorts       map[string]string
 }
@@ -170,6 +175,12 @@ func (c *VCtx) fresh(hint, sort string) Term {
 	defer func() {
 		c.sorts[fmt.Sprintf("|%s!%d|", sanitize(hint), c.nfresh)] = sort
 	}()
+	if c.nfresh == 0 {
+		// GVC_FRESH_OFFSET: start the symbol numbering elsewhere (stability test: a proof must not depend on symbol names)
+		if o, err := strconv.Atoi(os.Getenv("GVC_FRESH_OFFSET")); err == nil {
+			c.nfresh = o
+		}
+	}
 	c.nfresh++
 	hint = sanitize(hint)
 	name := fmt.Sprintf("%s!%d", hint, c.nfresh)
@@ -457,7 +468,12 @@ type State struct {
 	objRef  map[ObjID]Term
 	logs map[string]callLog
 	c    *VCtx
-	symObjs map[string]ObjID // lazily materialised pointees of unknown pointers
+	symObjs map[string]ObjID // lazily materialised pointees of unknown pointers (non-struct pointees)
+	bounds      map[string][2]*big.Int // integer bounds of terms known on every path that has them (see boundOf)
+	facts       map[string]bool     // literal conjuncts assumed on this path (syntactic branch pruning)
+	iterVisited map[*ssa.Range]Term // ghost: keys already produced by a range over a map
+	iterBefore  Term
+	heap    map[string]Term  // current version of each heap array (field of struct objects behind unknown pointers); absent = base array of the epoch
 	objs map[ObjID]Val
 	regs map[ssa.Value]Val
 	pc   []Term
@@ -475,6 +491,28 @@ func (s *State) clone() *State {
 	}
 	for k, v := range s.symObjs {
 		n.symObjs[k] = v
+	}
+	n.heap = make(map[string]Term, len(s.heap))
+	for k, v := range s.heap {
+		n.heap[k] = v
+	}
+	if s.bounds != nil {
+		n.bounds = make(map[string][2]*big.Int, len(s.bounds))
+		for k, v := range s.bounds {
+			n.bounds[k] = v
+		}
+	}
+	if s.facts != nil {
+		n.facts = make(map[string]bool, len(s.facts))
+		for k, v := range s.facts {
+			n.facts[k] = v
+		}
+	}
+	if s.iterVisited != nil {
+		n.iterVisited = make(map[*ssa.Range]Term, len(s.iterVisited))
+		for k, v := range s.iterVisited {
+			n.iterVisited[k] = v
+		}
 	}
 	n.logs = make(map[string]callLog, len(s.logs))
 	for k, v := range s.logs {
@@ -506,6 +544,28 @@ func (s *State) snapshot() *State {
 	for k, v := range s.symObjs {
 		n.symObjs[k] = v
 	}
+	n.heap = make(map[string]Term, len(s.heap))
+	for k, v := range s.heap {
+		n.heap[k] = v
+	}
+	if s.bounds != nil {
+		n.bounds = make(map[string][2]*big.Int, len(s.bounds))
+		for k, v := range s.bounds {
+			n.bounds[k] = v
+		}
+	}
+	if s.facts != nil {
+		n.facts = make(map[string]bool, len(s.facts))
+		for k, v := range s.facts {
+			n.facts[k] = v
+		}
+	}
+	if s.iterVisited != nil {
+		n.iterVisited = make(map[*ssa.Range]Term, len(s.iterVisited))
+		for k, v := range s.iterVisited {
+			n.iterVisited[k] = v
+		}
+	}
 	n.logs = make(map[string]callLog, len(s.logs))
 	for k, v := range s.logs {
 		n.logs[k] = v
@@ -530,7 +590,31 @@ func (s *State) assume(t Term) {
 		return
 	}
 	s.pc = append(s.pc, t)
+	s.noteFacts(t.S, 0)
 }
+
+// noteFacts records the literal conjuncts of an assumption; a branch whose condition contradicts a
+// recorded literal syntactically is not explored (it would only produce vacuous obligations).
+func (s *State) noteFacts(t string, depth int) {
+	if depth > 3 {
+		return
+	}
+	if strings.HasPrefix(t, "(and ") {
+		if ch, ok := sexprChildren(t); ok {
+			for _, c := range ch[1:] {
+				s.noteFacts(c, depth+1)
+			}
+		}
+		return
+	}
+	if s.facts == nil {
+		s.facts = map[string]bool{}
+	}
+	s.facts[t] = true
+}
+
+func (s *State) knownTrue(t Term) bool  { return os.Getenv("GVC_NOPRUNE") == "" && s.facts[t.S] }
+func (s *State) knownFalse(t Term) bool { return os.Getenv("GVC_NOPRUNE") == "" && (s.facts[tNot(t).S] || (strings.HasPrefix(t.S, "(not ") && s.facts[strings.TrimSuffix(strings.TrimPrefix(t.S, "(not "), ")")])) }
 
 // assumeGlobal: a fact that holds in every state (type ranges of fresh symbols, preconditions
 // about entry values); it survives a modular loop cut.
@@ -539,6 +623,7 @@ func (s *State) assumeGlobal(t Term) {
 		return
 	}
 	s.pc = append(s.pc, t)
+	s.noteFacts(t.S, 0)
 	s.keep = append(s.keep, t)
 }
 
@@ -751,14 +836,14 @@ func (s *State) toLeaf(v Val, sort string) Term {
 	case Scalar:
 		return x.T
 	case PtrV:
-		if x.Sym != "" {
+		if x.Sym != "" && len(x.Path) == 0 {
 			return Term{x.Sym, SRef}
 		}
-		if x.Obj == 0 {
+		if x.Sym == "" && x.Obj == 0 {
 			return Term{"ref_nil", SRef}
 		}
 		// one reference per structural pointer (so that uninterpreted functions of it agree)
-		key := fmt.Sprintf("ptr:%d/%v", x.Obj, x.Path)
+		key := fmt.Sprintf("ptr:%d/%s/%v", x.Obj, x.Sym, x.Path)
 		if s.refVals == nil {
 			s.refVals = map[string]Val{}
 		}
@@ -925,6 +1010,11 @@ func (s *State) resolve(p PtrV) (PtrV, bool) {
 	if p.Sym == "" {
 		return p, p.Obj != 0
 	}
+	if et, ok := symStructElem(p); ok {
+		// struct objects behind unknown pointers live in the heap arrays
+		p.Root = et
+		return p, true
+	}
 	pt, ok := p.Typ.(*types.Pointer)
 	if !ok {
 		if p.Typ == nil {
@@ -942,15 +1032,16 @@ func (s *State) resolve(p PtrV) (PtrV, bool) {
 	if !ok {
 		id = s.c.newObj()
 		s.symObjs[p.Sym] = id
-		// the pointee's fields are heap functions of the reference: two dereferences of equal
-		// references read the same values, also under quantifiers
-		s.objs[id] = s.heapVal(pt.Elem(), Term{p.Sym, SRef}, typeKey(pt.Elem()))
+		s.objs[id] = s.freshVal(pt.Elem(), "*"+strings.Trim(p.Sym, "|"), 0)
 	}
 	return PtrV{Obj: id, Path: p.Path, Typ: p.Typ}, true
 }
 
 func (s *State) load(p PtrV) (Val, bool) {
 	if p.Sym != "" {
+		if et, ok := symStructElem(p); ok {
+			return s.heapLoad(et, Term{p.Sym, SRef}, p.Path)
+		}
 		rp, ok := s.resolve(p)
 		if !ok {
 			return nil, false
@@ -985,6 +1076,9 @@ func (s *State) load(p PtrV) (Val, bool) {
 
 func (s *State) store(p PtrV, nv Val) bool {
 	if p.Sym != "" {
+		if et, ok := symStructElem(p); ok {
+			return s.heapStore(et, Term{p.Sym, SRef}, p.Path, nv)
+		}
 		rp, ok := s.resolve(p)
 		if !ok {
 			return false
@@ -1071,7 +1165,19 @@ func (s *State) eqVal(a, b Val) Term {
 				return tAnd(cs...)
 			}
 			if x.Sym != "" && y.Sym != "" {
-				return tEq(Term{x.Sym, SRef}, Term{y.Sym, SRef})
+				if len(x.Path) != len(y.Path) {
+					return tFalse
+				}
+				cs := []Term{tEq(Term{x.Sym, SRef}, Term{y.Sym, SRef})}
+				for i := range x.Path {
+					if x.Path[i].Field != y.Path[i].Field {
+						return tFalse
+					}
+					if x.Path[i].Field < 0 {
+						cs = append(cs, tEq(x.Path[i].Idx, y.Path[i].Idx))
+					}
+				}
+				return tAnd(cs...)
 			}
 			// one known, one unknown
 			if x.Sym == "" && x.Obj == 0 {
@@ -1132,57 +1238,188 @@ func (s *State) eqVal(a, b Val) Term {
 }
 
 // ---------------------------------------------------------------------------
-// Symbolic heap for objects reached through unknown pointers: every field is an uninterpreted
-// function of the object's reference (per heap epoch). Writes through a dereferenced pointer
-// update the materialised copy (found again through the same reference term); unknown code
-// starts a new epoch.
+// Symbolic heap for struct objects reached through unknown pointers: one SMT array per field,
+// indexed by the object's reference (Ref -> field value). Reads are selects, writes are stores, so
+// writes through one reference are seen through every equal reference, also under quantifiers.
+// Code without a contract that may write the heap starts a new epoch (all arrays fresh).
 // ---------------------------------------------------------------------------
 
-func (s *State) hfun(name, sort, axiomFmt string) string {
-	fn := fmt.Sprintf("hp_%s!e%d", name, s.epoch)
-	ax := ""
-	if axiomFmt != "" {
-		ax = strings.ReplaceAll(axiomFmt, "$F", fn)
+func symStructElem(p PtrV) (types.Type, bool) {
+	if p.Root != nil {
+		return p.Root, true
 	}
-	s.c.declareHeap(fn, sort, ax)
-	return fn
+	if len(p.Path) != 0 {
+		return nil, false
+	}
+	if p.Typ == nil {
+		return nil, false
+	}
+	pt, ok := p.Typ.Underlying().(*types.Pointer)
+	if !ok {
+		return nil, false
+	}
+	if _, ok := pt.Elem().Underlying().(*types.Struct); !ok {
+		return nil, false
+	}
+	return pt.Elem(), true
 }
 
+// harr: the current version of heap array `name` with elements of sort es.
+func (s *State) harr(name, es, axiomFmt string) Term {
+	if t, ok := s.heap[name]; ok {
+		return t
+	}
+	cn := fmt.Sprintf("H_%s!e%d", name, s.epoch)
+	sort := "(Array Ref " + es + ")"
+	s.c.declareConst(cn, sort, strings.ReplaceAll(axiomFmt, "$F", cn))
+	return Term{cn, sort}
+}
+
+// harrN: the current version of a heap array that has been declared before (by name only).
+func (s *State) harrN(name string) Term {
+	if t, ok := s.heap[name]; ok {
+		return t
+	}
+	sort := s.c.heapSorts[name]
+	es := ""
+	if ch, ok := sexprChildren(sort); ok && len(ch) == 3 {
+		es = ch[2]
+	}
+	return s.harr(name, es, s.c.heapAxioms[name])
+}
+
+func (s *State) hset(name string, t Term) {
+	if s.heap == nil {
+		s.heap = map[string]Term{}
+	}
+	s.heap[name] = t
+}
+
+func (c *VCtx) declareConst(name, sort, axiom string) {
+	if c.ufs == nil {
+		c.ufs = map[string]bool{}
+	}
+	if c.ufs[name] {
+		return
+	}
+	c.ufs[name] = true
+	c.decls = append(c.decls, fmt.Sprintf("(declare-fun %s () %s)", name, sort))
+	if axiom != "" {
+		c.decls = append(c.decls, axiom)
+	}
+}
+
+// bumpEpoch: unknown code may have written any heap object: every heap array is fresh from here on.
 func (s *State) bumpEpoch() {
 	s.epoch = s.c.nextEpoch()
+	s.heap = map[string]Term{}
 }
 
 func (c *VCtx) nextEpoch() int { c.epochs++; return c.epochs }
 
-func (s *State) heapVal(t types.Type, ref Term, name string) Val {
+// hfresh: a fresh version of one heap array (havoc of one field for all objects).
+func (s *State) hfresh(name string) {
+	if s.heap == nil {
+		s.heap = map[string]Term{}
+	}
+	cur, ok := s.heap[name]
+	sort := ""
+	if ok {
+		sort = cur.Sort
+	} else if srt, ok2 := s.c.heapSorts[name]; ok2 {
+		sort = srt
+	}
+	if sort == "" {
+		return
+	}
+	nm := s.c.fresh("H_"+name, sort)
+	if ax := s.c.heapAxioms[name]; ax != "" {
+		s.c.decls = append(s.c.decls, strings.ReplaceAll(ax, "$F", nm.S))
+	}
+	s.heap[name] = nm
+}
+
+func (s *State) hleaf(name, es, axiomFmt string) Term {
+	if s.c.heapSorts == nil {
+		s.c.heapSorts = map[string]string{}
+		s.c.heapAxioms = map[string]string{}
+	}
+	s.c.heapSorts[name] = "(Array Ref " + es + ")"
+	s.c.heapAxioms[name] = axiomFmt
+	return s.harr(name, es, axiomFmt)
+}
+
+// heapPath walks field steps through nested structs; it returns the field name prefix, the type
+// reached and the remaining (non-field or post-leaf) steps.
+func heapPath(t types.Type, name string, path []Step) (types.Type, string, []Step) {
+	for len(path) > 0 {
+		st, ok := t.Underlying().(*types.Struct)
+		if !ok || path[0].Field < 0 || path[0].Field >= st.NumFields() {
+			break
+		}
+		f := st.Field(path[0].Field)
+		name += "_" + f.Name()
+		t = f.Type()
+		path = path[1:]
+	}
+	return t, name, path
+}
+
+func (s *State) heapLoad(et types.Type, ref Term, path []Step) (Val, bool) {
+	t, name, rest := heapPath(et, typeKey(et), path)
+	v := s.heapRead(t, ref, name)
+	if len(rest) == 0 {
+		return v, true
+	}
+	// the rest of the path goes into a value held in one heap cell (fixed-size array field)
+	id := s.c.newObj()
+	s.objs[id] = v
+	defer delete(s.objs, id)
+	return s.load(PtrV{Obj: id, Path: rest})
+}
+
+func (s *State) heapStore(et types.Type, ref Term, path []Step, nv Val) bool {
+	t, name, rest := heapPath(et, typeKey(et), path)
+	if len(rest) != 0 {
+		cur := s.heapRead(t, ref, name)
+		nv = s.update(cur, rest, nv)
+	}
+	s.heapWrite(t, ref, name, nv)
+	return true
+}
+
+func (s *State) heapRead(t types.Type, ref Term, name string) Val {
 	p := s.c.pkg
 	switch u := t.Underlying().(type) {
 	case *types.Struct:
 		sv := StructV{Typ: t}
 		for i := 0; i < u.NumFields(); i++ {
-			sv.F = append(sv.F, s.heapVal(u.Field(i).Type(), ref, name+"_"+u.Field(i).Name()))
+			sv.F = append(sv.F, s.heapRead(u.Field(i).Type(), ref, name+"_"+u.Field(i).Name()))
 		}
 		return sv
-	case *types.Pointer:
-		return PtrV{Sym: app(SRef, s.hfun(name, SRef, ""), ref).S, Typ: t}
-	case *types.Interface:
-		return IfaceV{Tag: app(SRef, s.hfun(name, SRef, ""), ref), Typ: t}
+	case *types.Pointer, *types.Interface:
+		return s.fromLeaf(tSelect(s.hleaf(name, SRef, ""), ref), t)
 	case *types.Slice:
 		if p.nestable(u.Elem(), 0) {
-			r2 := app(SRef, s.hfun(name+"_aref", SRef, ""), ref)
-			ln := app(SInt, s.hfun(name+"_alen", SInt, "(assert (forall ((r Ref)) (! (and (<= 0 ($F r)) (<= ($F r) "+pow2(maxLenBits).String()+")) :pattern (($F r)))))"), ref)
+			r2 := tSelect(s.hleaf(name+"_aref", SRef, ""), ref)
+			ln := tSelect(s.hleaf(name+"_alen", SInt, "(assert (forall ((r Ref)) (! (and (<= 0 (select $F r)) (<= (select $F r) "+pow2(maxLenBits).String()+")) :pattern ((select $F r)))))"), ref)
 			return s.matSlice(r2, ln, t)
 		}
 		return s.freshVal(t, name, 0)
 	case *types.Map:
 		ks := s.keySort(u.Key())
 		m := MapV{Typ: t}
-		m.Dom = app("(Array "+ks+" Bool)", s.hfun(name+"_dom", "(Array "+ks+" Bool)", ""), ref)
+		m.Dom = tSelect(s.hleaf(name+"_dom", "(Array "+ks+" Bool)", ""), ref)
 		m.Vals = s.heapTreeK(u.Elem(), ks, ref, name+"_val")
-		m.Len = app(SInt, s.hfun(name+"_mlen", SInt, "(assert (forall ((r Ref)) (! (<= 0 ($F r)) :pattern (($F r)))))"), ref)
-		m.Nil = app(SBool, s.hfun(name+"_mnil", SBool, ""), ref)
+		m.Len = tSelect(s.hleaf(name+"_mlen", SInt, "(assert (forall ((r Ref)) (! (<= 0 (select $F r)) :pattern ((select $F r)))))"), ref)
+		m.Nil = tSelect(s.hleaf(name+"_mnil", SBool, ""), ref)
+		// an empty map has no keys (stated for concrete references only: a reference under a quantifier
+		// contains a bound variable)
+		if !strings.Contains(ref.S, "?") {
+			s.assume(tImplies(tEq(m.Len, intLit(0)), tEq(m.Dom, Term{"((as const (Array " + ks + " Bool)) false)", "(Array " + ks + " Bool)"})))
+		}
 		return m
-	case *types.Array:
+	case *types.Array, *types.Signature, *types.Chan:
 		return s.freshVal(t, name, 0)
 	}
 	sort := p.scalarSort(t)
@@ -1191,9 +1428,9 @@ func (s *State) heapVal(t types.Type, ref Term, name string) Val {
 	}
 	ax := ""
 	if ii, ok := p.intInfo(t); ok && !ii.bv {
-		ax = "(assert (forall ((r Ref)) (! (and (<= " + bigLit(ii.min()).S + " ($F r)) (<= ($F r) " + bigLit(ii.max()).S + ")) :pattern (($F r)))))"
+		ax = "(assert (forall ((r Ref)) (! (and (<= " + bigLit(ii.min()).S + " (select $F r)) (<= (select $F r) " + bigLit(ii.max()).S + ")) :pattern ((select $F r)))))"
 	}
-	return Scalar{app(sort, s.hfun(name, sort, ax), ref), t}
+	return Scalar{tSelect(s.hleaf(name, sort, ax), ref), t}
 }
 
 func (s *State) heapTreeK(t types.Type, ks string, ref Term, name string) SeqTreeK {
@@ -1209,6 +1446,84 @@ func (s *State) heapTreeK(t types.Type, ks string, ref Term, name string) SeqTre
 	if es == "" {
 		es = SRef
 	}
-	srt := "(Array " + ks + " " + es + ")"
-	return SeqTreeK{Arr: app(srt, s.hfun(name, srt, ""), ref), Typ: t}
+	return SeqTreeK{Arr: tSelect(s.hleaf(name, "(Array "+ks+" "+es+")", ""), ref), Typ: t}
+}
+
+func (s *State) heapWrite(t types.Type, ref Term, name string, v Val) {
+	p := s.c.pkg
+	put := func(nm, es string, val Term) {
+		s.hset(nm, tStore(s.hleaf(nm, es, s.c.heapAxioms[nm]), ref, val))
+	}
+	switch u := t.Underlying().(type) {
+	case *types.Struct:
+		sv, ok := v.(StructV)
+		for i := 0; i < u.NumFields(); i++ {
+			var fv Val
+			if ok && i < len(sv.F) {
+				fv = sv.F[i]
+			} else {
+				fv = s.freshVal(u.Field(i).Type(), name, 0)
+			}
+			s.heapWrite(u.Field(i).Type(), ref, name+"_"+u.Field(i).Name(), fv)
+		}
+		return
+	case *types.Pointer, *types.Interface:
+		s.hleaf(name, SRef, "")
+		put(name, SRef, s.toLeaf(v, SRef))
+		return
+	case *types.Slice:
+		if p.nestable(u.Elem(), 0) {
+			s.heapRead(t, ref, name) // declares the arrays
+			if sv, ok := v.(SliceV); ok {
+				r2, ln := s.refOfSlice(sv)
+				put(name+"_aref", SRef, r2)
+				put(name+"_alen", SInt, ln)
+			} else {
+				put(name+"_aref", SRef, s.c.fresh("ref", SRef))
+				ln := s.c.fresh("len", SInt)
+				s.assume(tAnd(tLe(intLit(0), ln), tLe(ln, bigLit(pow2(maxLenBits)))))
+				put(name+"_alen", SInt, ln)
+			}
+		}
+		return
+	case *types.Map:
+		cur := s.heapRead(t, ref, name).(MapV) // declares the arrays
+		mv, ok := v.(MapV)
+		if !ok {
+			mv = s.freshMap(t, u, name).(MapV)
+		}
+		ks := s.keySort(u.Key())
+		put(name+"_dom", "(Array "+ks+" Bool)", mv.Dom)
+		put(name+"_mlen", SInt, mv.Len)
+		put(name+"_mnil", SBool, mv.Nil)
+		s.heapWriteTreeK(cur.Vals, mv.Vals, ref, name+"_val")
+		return
+	case *types.Array, *types.Signature, *types.Chan:
+		return
+	}
+	sort := p.scalarSort(t)
+	if sort == "" {
+		sort = SRef
+	}
+	s.heapRead(t, ref, name)
+	put(name, sort, s.toLeaf(v, sort))
+}
+
+func (s *State) heapWriteTreeK(cur, nv SeqTreeK, ref Term, name string) {
+	if cur.Fields != nil {
+		for i := range cur.Fields {
+			if i < len(nv.Fields) {
+				st := cur.Typ.Underlying().(*types.Struct)
+				s.heapWriteTreeK(cur.Fields[i], nv.Fields[i], ref, name+"_"+st.Field(i).Name())
+			}
+		}
+		return
+	}
+	if nv.Arr.S == "" || cur.Arr.Sort != nv.Arr.Sort {
+		return
+	}
+	es := strings.TrimSuffix(strings.TrimPrefix(cur.Arr.Sort, "(Array "), ")")
+	_ = es
+	h := s.hleaf(name, s.c.heapSorts[name][len("(Array Ref "):len(s.c.heapSorts[name])-1], "")
+	s.hset(name, tStore(h, ref, nv.Arr))
 }
